@@ -5,7 +5,7 @@
                                   ([accept]; [accept_prefix] is the code BEFORE the fix commit
                                   24c42e028, whose Updated grant carried no allow list)
       x/marker/keeper/marker.go   TransferCoin, canForceTransferFrom, authzHandler,
-                                  validateSendToMarker
+                                  validateSendToMarker, WithdrawCoins (recipient checks)
       x/marker/keeper/msg_server.go Transfer (ValidateBasic first)
       cosmos-sdk x/authz/keeper   DispatchActions / update / DeleteGrant: what is stored after a
                                   use (Delete -> grant removed, otherwise Updated replaces it)
@@ -140,13 +140,23 @@ Definition module_or_contract_shape (a : acct) : bool :=
 
 Inductive dest :=
 | DPlain                                     (* not a marker, not blocked *)
-| DMarker (restricted : bool) (admin_rights : N)   (* a marker account; the admin's rights on it *)
+| DMarker (restricted : bool) (st : status) (admin_rights : N)
+                                             (* a marker account of that type in that status; the
+                                                admin's rights on it *)
 | DBlocked.                                  (* bankKeeper.BlockedAddr *)
 
-(** validateSendToMarker *)
+(** validateSendToMarker: the type of the receiving marker decides, its STATUS is not read (a
+    proposed, finalized, cancelled or not yet removed destroyed restricted marker's account takes
+    deposits only from a holder of DEPOSIT on it, like an active one). *)
 Definition dest_marker_ok (d : dest) : bool :=
   match d with
-  | DMarker true rs => has RDeposit rs
+  | DMarker true _ rs => has RDeposit rs
+  | _ => true
+  end.
+(** A variant that only guards ACTIVE receiving markers: refuted in Proofs/MarkerAccessProofs.v. *)
+Definition dest_marker_ok_active_only (d : dest) : bool :=
+  match d with
+  | DMarker true SActive rs => has RDeposit rs
   | _ => true
   end.
 Definition dest_blocked (d : dest) : bool := match d with DBlocked => true | _ => false end.
@@ -167,7 +177,8 @@ Record xfer := {
 Inductive path := PSelf | PGrant | PForced.
 
 (** [Some (how, grant stored afterwards)] when the transfer goes through, [None] when it fails. *)
-Definition transfer_gen acc (x : xfer) : option (path * option grant) :=
+Definition transfer_gen2 (dest_ok : dest -> bool) (acc : grant -> tmsg -> option accept_res) (x : xfer)
+  : option (path * option grant) :=
   let m := x_msg x in
   if Z.ltb (m_amt m) 0 then None
   else if negb (status_eqb (x_status x) SActive) then None
@@ -175,7 +186,7 @@ Definition transfer_gen acc (x : xfer) : option (path * option grant) :=
   else
     let can_force := has RForceTransfer (x_rights x) in
     if negb (has RTransfer (x_rights x)) && negb can_force then None
-    else if negb (dest_marker_ok (x_dest x)) then None
+    else if negb (dest_ok (x_dest x)) then None
     else
       let how :=
         if x_self x then Some (PSelf, x_grant x)
@@ -197,4 +208,15 @@ Definition transfer_gen acc (x : xfer) : option (path * option grant) :=
           else Some r
       end.
 
+Definition transfer_gen := transfer_gen2 dest_marker_ok.
 Definition transfer := transfer_gen accept.
+
+(** ** WithdrawCoins with its recipient (marker.go WithdrawCoins): WITHDRAW on the source marker,
+    validateSendToMarker on the recipient, source marker active, recipient not blocked.  [c] is the
+    configuration of the SOURCE marker and the caller's rights on it. *)
+Definition withdraw_to_gen (dest_ok : dest -> bool) (c : cfg) (d : dest) : bool :=
+  match decide c OWithdraw with
+  | Done => dest_ok d && negb (dest_blocked d)
+  | _ => false
+  end.
+Definition withdraw_to := withdraw_to_gen dest_marker_ok.
